@@ -347,6 +347,8 @@ def rule_blocking(ctx, rep):
                   [b.where() for b in bad[:1]])
 
 
+META["explanation"] += " " + 'Also (round 12 and fifth reading): return case table of pop (WOULDBLOCK only after a blocked wait or a lost cmpxchg, a node only from the winning attempt), LAST iff the new head is END; decision tables evaluate ordering comparisons (node addresses in [4096, 2^47)).'
+
 RULES = [
     ("C11.wfs", rule_wfs),
     ("C11.lfs", rule_lfs),
